@@ -54,14 +54,18 @@ func otherCase(c byte) (byte, bool) {
 }
 
 // caselessRegex spells an ASCII case-insensitive literal as explicit classes.
-// (Go's regexp mis-handles the (?i:) flag under alternation: `(?i:a)b|A` matches
-// "a" in go1.23 - found by the thorough tier as an oracle disagreement.)
+// (Go's regexp mis-handles case folding under alternation: in go1.23
+// regexp/syntax turns both `(?i:a)` and `[aA]` into a fold-case literal, and its
+// common-prefix factoring compares literals without the fold flag, so
+// `(?i:a)b|A` and `[aA]b|A` match "a" - found twice by the thorough tier as an
+// oracle disagreement. A third class member that no generated text contains
+// (U+10FFFF) keeps the class a class.)
 func caselessRegex(s string) string {
 	var b strings.Builder
 	for i := 0; i < len(s); i++ {
 		c := s[i]
 		if oc, ok := otherCase(c); ok {
-			b.WriteString("[" + string([]byte{c, oc}) + "]")
+			b.WriteString("[" + string([]byte{c, oc}) + `\x{10FFFF}]`)
 		} else {
 			b.WriteString(regexp.QuoteMeta(string([]byte{c})))
 		}
@@ -110,6 +114,30 @@ func Nullable(n *Node, globals map[string]Global) bool {
 		return true
 	}
 	return true
+}
+
+// goRegexWrapAlts makes ToGoRegex put every alternative in a capture group, which
+// switches off regexp/syntax's common-prefix factoring of alternations (the source
+// of the go1.23 bugs above). Used for a second opinion when the plain translation
+// disagrees with the reference matcher.
+var goRegexWrapAlts bool
+
+func wrapAlts(alts []string) []string {
+	if !goRegexWrapAlts {
+		return alts
+	}
+	out := make([]string, len(alts))
+	for i, a := range alts {
+		out[i] = "(" + a + ")"
+	}
+	return out
+}
+
+// ToGoRegexSafe is ToGoRegex with every alternative wrapped in a capture group.
+func ToGoRegexSafe(n *Node, globals map[string]Global) (string, bool) {
+	goRegexWrapAlts = true
+	defer func() { goRegexWrapAlts = false }()
+	return ToGoRegex(n, globals)
 }
 
 // ToGoRegex translates n; ok=false when n is outside the regular subset.
@@ -206,7 +234,7 @@ func ToGoRegex(n *Node, globals map[string]Global) (string, bool) {
 				}
 			}
 		}
-		return "(?:" + strings.Join(alts, "|") + ")", true
+		return "(?:" + strings.Join(wrapAlts(alts), "|") + ")", true
 	case KSeq, KSub:
 		var b strings.Builder
 		b.WriteString("(?:")
@@ -246,7 +274,7 @@ func ToGoRegex(n *Node, globals map[string]Global) (string, bool) {
 			}
 			alts = append(alts, s)
 		}
-		return "(?:" + strings.Join(alts, "|") + ")", true
+		return "(?:" + strings.Join(wrapAlts(alts), "|") + ")", true
 	case KCap:
 		s, ok := ToGoRegex(n.Body, globals)
 		if !ok {
